@@ -166,20 +166,43 @@ pub struct CapShared {
 
 pub type CapRegistry = Arc<Mutex<BTreeMap<GraphId, Arc<CapShared>>>>;
 
+/// Fault plan shared by every writer of a `CapIo`: the `fail_commit_at`-th call of
+/// `Write::commit` (counted over the manager's lifetime, from 0) returns an I/O error once and
+/// leaves the committed state untouched; negative = never.
+pub struct FaultPlan {
+    pub fail_commit_at: std::sync::atomic::AtomicI64,
+    pub commits_seen: std::sync::atomic::AtomicU64,
+    pub failed: std::sync::atomic::AtomicU64,
+}
+
+impl Default for FaultPlan {
+    fn default() -> Self {
+        FaultPlan { fail_commit_at: std::sync::atomic::AtomicI64::new(-1), commits_seen: Default::default(), failed: Default::default() }
+    }
+}
+
 #[derive(Default)]
 pub struct CapIo {
     pub registry: CapRegistry,
+    pub fault: Arc<FaultPlan>,
 }
 
 impl CapIo {
     pub fn new() -> (Self, CapRegistry) {
         let registry: CapRegistry = Arc::default();
-        (CapIo { registry: registry.clone() }, registry)
+        (CapIo { registry: registry.clone(), fault: Arc::default() }, registry)
+    }
+    /// A manager whose `commit_index`-th backend commit fails with `StorageError::IoError`.
+    pub fn failing_commit(commit_index: u64) -> (Self, Arc<FaultPlan>) {
+        let fault: Arc<FaultPlan> = Arc::default();
+        fault.fail_commit_at.store(commit_index as i64, std::sync::atomic::Ordering::SeqCst);
+        (CapIo { registry: Arc::default(), fault: fault.clone() }, fault)
     }
 }
 
 pub struct CapWriter {
     shared: Arc<CapShared>,
+    fault: Arc<FaultPlan>,
 }
 
 #[derive(Clone)]
@@ -202,10 +225,10 @@ impl IoManager for CapIo {
         }
         let shared: Arc<CapShared> = Arc::default();
         reg.insert(id, shared.clone());
-        Ok(CapWriter { shared })
+        Ok(CapWriter { shared, fault: self.fault.clone() })
     }
     fn open(&mut self, id: GraphId) -> Result<Option<CapWriter>, StorageError> {
-        Ok(self.registry.lock().unwrap().get(&id).map(|s| CapWriter { shared: s.clone() }))
+        Ok(self.registry.lock().unwrap().get(&id).map(|s| CapWriter { shared: s.clone(), fault: self.fault.clone() }))
     }
     fn remove(&mut self, id: GraphId) -> Result<(), StorageError> {
         self.registry.lock().unwrap().remove(&id);
@@ -245,6 +268,12 @@ impl Write for CapWriter {
         Ok(item)
     }
     fn commit(&mut self, heads: &HeadSet, fact_cache: FactCacheOffset) -> Result<(), StorageError> {
+        use std::sync::atomic::Ordering::SeqCst;
+        let i = self.fault.commits_seen.fetch_add(1, SeqCst);
+        if self.fault.fail_commit_at.load(SeqCst) == i as i64 {
+            self.fault.failed.fetch_add(1, SeqCst);
+            return Err(StorageError::IoError);
+        }
         let mut c = self.shared.committed.lock().unwrap();
         let n = c.as_ref().map(|c| c.2 + 1).unwrap_or(0);
         *c = Some((heads.clone(), fact_cache, n));
